@@ -68,12 +68,13 @@ type vxSent struct {
 	wellReq bool // decodes as a request object
 }
 
-var vxDocOnly = false // document notifications only (templates 2..6, no id)
+var vxDocOnly = false                   // document notifications only (templates 2..6, no id)
+var vxDocPick = []int{0, 1, 2, 3, 4, 5} // texts used by the document histories
 
 func vxBuildMessage() vxSent {
 	if vxDocOnly {
 		t := vxTemplates[2+vx.Choice(5)]
-		text := vxDocTexts[vx.Choice(len(vxDocTexts))]
+		text := vxDocTexts[vxDocPick[vx.Choice(len(vxDocPick))]]
 		tj, _ := json.Marshal(text)
 		mj, _ := json.Marshal(t.method)
 		return vxSent{method: t.method, wellReq: true, raw: `{"jsonrpc":"2.0","method":` + string(mj) + `,"params":` + strings.ReplaceAll(t.params, "%T", string(tj)) + "}"}
@@ -224,4 +225,4 @@ func VxC18_Conversation3() { vxConversation(3) }
 
 // open / change (full and ranged) / save / close histories
 func VxC18_DocHistory3() { vxDocOnly = true; vxConversation(3) }
-func VxC18_DocHistory4() { vxDocOnly = true; vxConversation(4) }
+func VxC18_DocHistory4() { vxDocOnly = true; vxDocPick = []int{0, 4, 5}; vxConversation(4) }
